@@ -126,6 +126,9 @@ func tmpRoot() string {
 		base = filepath.Join(b, "tmp")
 		os.MkdirAll(base, 0o755)
 	}
+	if b := os.Getenv("VERIF_SHM"); b != "" {
+		base = b
+	}
 	r, err := os.MkdirTemp(base, "verif-sp-")
 	if err != nil {
 		r = os.TempDir()
